@@ -85,7 +85,16 @@ class BuckGophermapHandler(BaseHandler):
                     if entry.gethost() is None and entry.getport() is None:
                         # If we're using links on THIS server, try to fill
                         # it in for gopher+.
-                        if self.vfs.exists(selector):
+                        # Only look at paths that could also be requested.
+                        probe = BaseHandler(
+                            selector,
+                            self.searchrequest,
+                            self.protocol,
+                            self.config,
+                            None,
+                            self.vfs,
+                        )
+                        if probe.isrequestsecure() and self.vfs.exists(selector):
                             entry.populatefromvfs(self.vfs, selector)
                     self.entries.append(entry)
                 else:  # Info line
